@@ -24,7 +24,7 @@ fn slot(n: Name, nm: &Naming) -> Slot {
 
 /// direct construction of nodes, independent of from_syntax
 pub trait Build: Language {
-    fn build(op: &str, slots: &[Slot], binders: &[Vec<Slot>], pay: Option<&str>) -> Option<Self>;
+    fn build(op: &str, slots: &[Slot], binders: &[Vec<Slot>], pays: &[&str]) -> Option<Self>;
 }
 
 fn aid() -> AppliedId {
@@ -38,7 +38,8 @@ fn b2(b: &[Slot]) -> Bind<Bind<AppliedId>> {
 }
 
 impl Build for Core {
-    fn build(op: &str, s: &[Slot], b: &[Vec<Slot>], pay: Option<&str>) -> Option<Self> {
+    fn build(op: &str, s: &[Slot], b: &[Vec<Slot>], pays: &[&str]) -> Option<Self> {
+        let pay = pays.first().copied();
         Some(match op {
             "v" => Core::V(s[0]),
             "f2" => Core::F2(s[0], s[1]),
@@ -64,7 +65,8 @@ impl Build for Core {
 }
 
 impl Build for Arith {
-    fn build(op: &str, s: &[Slot], b: &[Vec<Slot>], pay: Option<&str>) -> Option<Self> {
+    fn build(op: &str, s: &[Slot], b: &[Vec<Slot>], pays: &[&str]) -> Option<Self> {
+        let pay = pays.first().copied();
         Some(match op {
             "var" => Arith::Var(s[0]),
             "lam" => Arith::Lam(b1(&b[0])),
@@ -85,7 +87,7 @@ impl Build for Arith {
 }
 
 impl Build for Sdql {
-    fn build(op: &str, s: &[Slot], b: &[Vec<Slot>], _pay: Option<&str>) -> Option<Self> {
+    fn build(op: &str, s: &[Slot], b: &[Vec<Slot>], _pays: &[&str]) -> Option<Self> {
         Some(match op {
             "var" => Sdql::Var(s[0]),
             "lambda" => Sdql::Lam(b1(&b[0])),
@@ -97,7 +99,8 @@ impl Build for Sdql {
 }
 
 impl Build for ArrayLang {
-    fn build(op: &str, s: &[Slot], b: &[Vec<Slot>], pay: Option<&str>) -> Option<Self> {
+    fn build(op: &str, s: &[Slot], b: &[Vec<Slot>], pays: &[&str]) -> Option<Self> {
+        let pay = pays.first().copied();
         Some(match op {
             "var" => ArrayLang::Var(s[0]),
             "lam" => ArrayLang::Lam(s[0], aid()),
@@ -116,12 +119,15 @@ impl Build for ArrayLang {
 }
 
 impl Build for Pay {
-    fn build(op: &str, s: &[Slot], b: &[Vec<Slot>], pay: Option<&str>) -> Option<Self> {
+    fn build(op: &str, s: &[Slot], b: &[Vec<Slot>], pays: &[&str]) -> Option<Self> {
+        let pay = pays.first().copied();
         Some(match op {
             "at" => Pay::At(s[0]),
             "neg" => Pay::Neg(aid()),
             "tag" => Pay::Tag(pay?.parse().ok()?, s[0], aid()),
             "scope" => Pay::Scope(pay?.parse().ok()?, b1(&b[0])),
+            "lbl" => Pay::Lbl(Symbol::from(pay?), pays.get(1)?.parse().ok()?, aid()),
+            "pr" => Pay::Pr(pay?.parse().ok()?, pays.get(1)?.parse().ok()?),
             "" => {
                 let p = pay?;
                 if let Ok(i) = p.parse::<i64>() {
@@ -138,7 +144,7 @@ impl Build for Pay {
 }
 
 impl Build for Arith2 {
-    fn build(op: &str, s: &[Slot], _b: &[Vec<Slot>], _pay: Option<&str>) -> Option<Self> {
+    fn build(op: &str, s: &[Slot], _b: &[Vec<Slot>], _pays: &[&str]) -> Option<Self> {
         Some(match op {
             "var" => Arith2::Var(s[0]),
             "f" => Arith2::F(aid(), aid()),
@@ -164,19 +170,19 @@ pub fn build_pattern<L: Build>(t: &Tm, nm: &Naming) -> Result<Pattern<L>, String
     }
     let mut slots = Vec::new();
     let mut binders: Vec<Vec<Slot>> = Vec::new();
-    let mut pay: Option<String> = None;
+    let mut pays: Vec<&str> = Vec::new();
     let mut kids = Vec::new();
     for a in &t.args {
         match a {
             Arg::S(n) => slots.push(slot(*n, nm)),
-            Arg::P(p) => pay = Some(p.clone()),
+            Arg::P(p) => pays.push(p.as_str()),
             Arg::K(bs, k) => {
                 binders.push(bs.iter().map(|b| slot(*b, nm)).collect());
                 kids.push(build_pattern::<L>(k, nm)?);
             }
         }
     }
-    let node = L::build(&t.op, &slots, &binders, pay.as_deref()).ok_or_else(|| format!("cannot build {}", t.op))?;
+    let node = L::build(&t.op, &slots, &binders, &pays).ok_or_else(|| format!("cannot build {}", t.op))?;
     Ok(Pattern::ENode(node, kids))
 }
 
@@ -506,7 +512,23 @@ pub fn check_text<L: Language>(text: &str) -> Result<(bool, bool), String> {
     }
     match MultiPattern::<L>::parse(text) {
         Ok(mp) => {
-            let _ = mp.to_string();
+            // the only public view on a multi-pattern is its printed form: printing must work (it walks the node's syntax and
+            // takes one child per argument position), every printed clause must be a well-formed node pattern whose children
+            // are pattern variables, and no written argument may have disappeared
+            let printed = mp.to_string();
+            for clause in printed.split(", ?") {
+                let Some((_, rhs)) = clause.split_once(" == ") else { continue };
+                if let Ok(p) = Pattern::<L>::parse(rhs) {
+                    well_formed(&p).map_err(|e| format!("MultiPattern::parse({:?}) accepted an ill-formed value (printed {:?}): {e}", text, printed))?;
+                }
+            }
+            let count = |s: &str| s.split(|c: char| c.is_whitespace() || "()[],".contains(c)).filter(|w| !w.is_empty() && *w != "==" && *w != ":=").count();
+            if count(&printed) < count(text) {
+                return Err(format!("MultiPattern::parse({:?}) accepted the text but the value prints as {:?}: a written argument was dropped (the node has fewer children than written)", text, printed));
+            }
+            if !printed.is_empty() {
+                any_ok = true;
+            }
         }
         Err(_) => {}
     }
@@ -590,7 +612,40 @@ fn text_strategy() -> BoxedStrategy<TextCase> {
         1 => "\\PC{0,20}",
         1 => "[()\\[\\] $?:=a-z0-9]{0,24}",
     ];
-    (proptest::sample::select(langs), text).prop_map(|(lang, text)| TextCase { lang, text }).boxed()
+    // near misses of multi-patterns: a well-formed multi-pattern in which one argument position of a clause holds something
+    // else than a pattern variable (a constant, a nested node, a substitution form), or an argument is missing / surplus
+    let near = (mp_strategy(), any::<u16>(), any::<u16>()).prop_map(|(c, k, r)| {
+        let txt = mp_text(&c);
+        let toks: Vec<&str> = txt.split(' ').collect();
+        // argument positions: tokens that start with '?' and are not followed by "=="
+        let args: Vec<usize> = (0..toks.len()).filter(|i| toks[*i].starts_with('?') && toks.get(i + 1) != Some(&"==") && *i > 0 && toks[i - 1] != ",").collect();
+        let consts: &[&str] = match c.lang {
+            LangId::Arith2 => &["zero", "(var $x)", "(sub ?a ?b)"],
+            LangId::Core => &["c0", "1", "(v $x)", "(w ?a)"],
+            LangId::Lambda => &["(var $x)", "(app ?a ?b)"],
+            LangId::Sdql => &["(var $x)", "(sing ?a ?b)"],
+            _ => &["1", "s", "(var $x)", "(add ?a ?b)"],
+        };
+        let mut out: Vec<String> = toks.iter().map(|t| t.to_string()).collect();
+        if !args.is_empty() {
+            let i = args[(k as usize * args.len()) >> 16];
+            let body = toks[i].trim_end_matches(')');
+            let tail = &toks[i][body.len()..];
+            let repl: String = match r % 5 {
+                0 | 1 => consts[(r as usize / 5) % consts.len()].to_string(),
+                2 => format!("{}[?c := ?d]", body),
+                3 => String::new(),
+                _ => format!("{} {}", body, body),
+            };
+            out[i] = format!("{}{}", repl, tail);
+        }
+        TextCase { lang: c.lang, text: out.join(" ") }
+    });
+    crate::one_of![
+        8 => (proptest::sample::select(langs), text).prop_map(|(lang, text)| TextCase { lang, text }),
+        2 => near,
+    ]
+    .boxed()
 }
 
 pub fn property(tier: Tier) -> Property {
